@@ -20,7 +20,12 @@ RULE = ("Triangulated surfaces: well-shaped (min angle >= 8 deg) closed (tetra/o
         "state option (nothing cached / corner angles cached, which switches the cotangent formula) x neighbourhood sorting on/off x "
         "a shuffled order of the operator groups on one shared mesh object (so cached area / cotan attributes are met in every order); every "
         "returned matrix is overwritten in place right after it was read, and in 1/3 of the cases all groups are run a second time on the "
-        "same mesh (after another mesh object was used); the custom adjacency dict has a shuffled insertion order. On every mesh ALL options are swept: laplacian cotan/uniform/(vertex "
+        "same mesh (after another mesh object was used); the custom adjacency dict has a shuffled insertion order and, in half of the cases, numpy float32 / uint8 values; calls that "
+        "raise (bad weights name, incomplete dict) precede the checked ones. Further per-case draws: anisotropic stretch, translation by "
+        "1e3..1e6 x the mean edge length (tolerance = max(1e-9, 64 eps x offset/size)), face / cell rows as list, tuple, numpy int64 / "
+        "int32 / int16 / uint8 rows or through mesh.from_arrays, library switches config.complete_edges_from_faces=False (1/6: only the "
+        "face-based operators and the empty edge set are checked) and display_duplicate_attribute_warning, a cached SPARSE area / "
+        "volume attribute, a user-written connection object for the gradient. On every mesh ALL options are swept: laplacian cotan/uniform/(vertex "
         "connection, order 1,2,4), gradient complex and real in SurfaceConnectionFaces (and FlatConnectionFaces on planar "
         "meshes) bases, three area mass matrices x inverse x sqrt x format, adjacency one/length/custom, vertex-edge operator "
         "oriented or not, vertex-face operator, graph laplacian, cotan_edge_diagonal inverse or not, laplacian_triangles and "
@@ -49,10 +54,31 @@ ASSUMPTIONS = ["surfaces are oriented manifold triangulations with min angle >= 
                "keeps them as int64 vectors, and with coordinates around 1e6 its cross products / squared norms overflow int64 "
                "silently (observed: wrong areas, cotangents, gradients, NaN in the feature detector) - a matter of vertex ingestion "
                "(C02), not asserted here",
+               "config.complete_edges_from_faces=False: a faces-only surface then has no edges; laplacian / gradient / vertex and face masses / "
+               "vertex-face operator must be unaffected, edge-based operators are only checked against the empty edge set, laplacian_edges, "
+               "the dual operators and SurfaceConnectionVertices are not called. config.complete_faces_from_cells=False is NOT drawn: the "
+               "unchanged library cannot even construct a VolumeMesh under it (KeyError in RawMeshData._generate_cell_faces) - reported",
+               "float32 vertex coordinates are not generated (the library keeps the dtype and computes in single precision)",
+               "non-orientable / inconsistently oriented surfaces (Moebius strip) are outside the domain",
                "an unreferenced trailing vertex is in the domain of the |V|-sized operators (laplacian, graph operators, gradient); "
                "mass matrices are not checked on such meshes (zero mass is outside 'positive diagonal')"]
 
 TOL = 1e-9
+EPS = float(np.finfo(float).eps)
+# Tolerance in force for the current case.  1e-9 (relative) unless the mesh lies far from the origin compared with its element size:
+# translation-invariant quantities computed from absolute coordinates legitimately lose eps x offset/size (linear in the ratio); a
+# formula that cancels catastrophically loses eps x (offset/size)^2 and is still far outside.
+CUR = {"tol": TOL}
+
+
+def set_case_tolerance(Vn, edges):
+    CUR["tol"] = TOL
+    if len(edges):
+        size = min(float(np.linalg.norm(Vn[a] - Vn[b])) for a, b in edges)
+        used = sorted(set(v for e in edges for v in e))
+        ratio = float(np.max(np.abs(Vn[used]))) / size if size > 0 else 1.0
+        CUR["tol"] = max(TOL, 64 * EPS * ratio)
+    return CUR["tol"]
 FORMATS = ["csc", "csr", "coo", "lil", "dia"]
 # every operator is covariant under uniform scaling (L: s^0, G: s^-1, area: s^2, volume: s^3): millimetre / micrometre sized
 # and kilometre sized objects are in the domain; all tolerances are relative
@@ -69,33 +95,79 @@ def all_integral(V):
     return all(float(x).is_integer() and abs(x) <= 2e4 for v in V for x in v)
 
 
-def build_surface(V, F, int_mode):
-    """int_mode: None (floats) / 'numpy' (int64 rows) / 'python' (lists of int)"""
-    if not int_mode:
-        return surface_from(V, F)
+FACE_FORMS = ["list", "list", "tuple", "int64", "int32", "int16", "uint8", "from_arrays", "from_arrays32"]
+NP_INDEX = {"int64": np.int64, "int32": np.int32, "int16": np.int16, "uint8": np.uint8}
+
+
+def index_rows(rows, form):
+    """index rows (faces / cells) in the requested container form; 'uint8' only when every index fits"""
+    if form == "uint8" and max(max(r) for r in rows) > 255:
+        form = "int16"
+    if form in NP_INDEX:
+        return [np.array(r, dtype=NP_INDEX[form]) for r in rows]
+    if form == "tuple":
+        return [tuple(r) for r in rows]
+    return [list(r) for r in rows]
+
+
+def build_surface(V, F, int_mode, form="list"):
+    """int_mode: None (floats) / 'numpy' (int64 rows) / 'python' (lists of int); form: container / dtype of the face rows,
+    'from_arrays[32]' = mouette.mesh.from_arrays with an (n,3) index array of dtype int64 / int32"""
     import mouette as M
     from mouette.mesh.mesh_data import RawMeshData
+    if form in ("from_arrays", "from_arrays32"):
+        Va = np.array(V, dtype=np.int64 if int_mode else float).reshape(-1, 3)
+        return M.mesh.from_arrays(Va, F=np.array(F, dtype=np.int32 if form == "from_arrays32" else np.int64))
     raw = RawMeshData()
     if int_mode == "numpy":
         raw.vertices += [np.array([int(x) for x in v], dtype=np.int64) for v in V]
-    else:
+    elif int_mode:
         raw.vertices += [[int(x) for x in v] for v in V]
-    raw.faces += [list(f) for f in F]
+    else:
+        raw.vertices += [list(map(float, v)) for v in V]
+    raw.faces += index_rows(F, form)
     return M.mesh.SurfaceMesh(raw)
 
 
-def build_volume(V, C, int_mode):
-    if not int_mode:
-        return volume_from(V, C)
+def build_volume(V, C, int_mode, form="list"):
     import mouette as M
     from mouette.mesh.mesh_data import RawMeshData
+    if form in ("from_arrays", "from_arrays32"):
+        Va = np.array(V, dtype=np.int64 if int_mode else float).reshape(-1, 3)
+        return M.mesh.from_arrays(Va, C=np.array(C, dtype=np.int32 if form == "from_arrays32" else np.int64))
     raw = RawMeshData()
     if int_mode == "numpy":
         raw.vertices += [np.array([int(x) for x in v], dtype=np.int64) for v in V]
-    else:
+    elif int_mode:
         raw.vertices += [[int(x) for x in v] for v in V]
-    raw.cells += [list(c) for c in C]
+    else:
+        raw.vertices += [list(map(float, v)) for v in V]
+    raw.cells += index_rows(C, form)
     return M.mesh.VolumeMesh(raw)
+
+
+class CustomFaceConnection:
+    """A user-written connection object (only what operators.gradient documents to need: project(V, i) and base(i)): one
+    orthonormal tangent frame per face, X = a seeded rotation of the first edge direction about the face normal, Y = N x X."""
+
+    def __init__(self, Vn, F, N, seed):
+        rnd = random.Random(seed)
+        self.X = np.zeros((len(F), 3)); self.Y = np.zeros((len(F), 3))
+        for i, f in enumerate(F):
+            e = Vn[f[1]] - Vn[f[0]]
+            e = e - np.dot(e, N[i]) * N[i]
+            e /= np.linalg.norm(e)
+            w = np.cross(N[i], e)
+            th = rnd.uniform(0, 2 * math.pi)
+            self.X[i] = math.cos(th) * e + math.sin(th) * w
+            self.Y[i] = np.cross(N[i], self.X[i])
+
+    def base(self, i):
+        return self.X[i].copy(), self.Y[i].copy()
+
+    def project(self, V, i):
+        V = np.asarray(V, dtype=float)
+        return float(np.dot(self.X[i], V)), float(np.dot(self.Y[i], V))
 
 
 def snapshot(m, kind):
@@ -115,7 +187,8 @@ def amax(A):
     return float(np.max(np.abs(A))) if np.size(A) else 0.0
 
 
-def relclose(A, B, tol=TOL):
+def relclose(A, B, tol=None):
+    tol = CUR["tol"] if tol is None else max(tol, tol / TOL * CUR["tol"])      # explicit tolerances are multiples of the base one
     A = np.asarray(A); B = np.asarray(B)
     if A.shape != B.shape:
         return False
@@ -127,8 +200,9 @@ def relclose(A, B, tol=TOL):
     return bool(np.max(np.abs(A - B)) <= tol * s)
 
 
-def relclose_entrywise(d, exp, tol=TOL):
+def relclose_entrywise(d, exp, tol=None):
     """every entry within tol of its own expected value (for positive diagonals with a wide dynamic range)"""
+    tol = CUR["tol"] if tol is None else tol
     d = np.asarray(d, dtype=float); exp = np.asarray(exp, dtype=float)
     if d.shape != exp.shape:
         return False
@@ -226,7 +300,7 @@ def check_entries(ctx, sig, mat, shape, expected, what):
     if len(vals):
         s = max(amax(vals), amax(exp))
         k = int(np.argmax(np.abs(vals - exp)))
-        if abs(vals[k] - exp[k]) > TOL * s:
+        if abs(vals[k] - exp[k]) > CUR["tol"] * s:
             bad = (ent[k][0], ent[k][1], float(vals[k]), float(exp[k]))
     return ctx.check(bad is None, sig + ":values", f"{what}: entry {bad[:2] if bad else None} = {bad[2] if bad else None}, expected {bad[3] if bad else None}")
 
@@ -238,11 +312,11 @@ def check_sym_rowsum(ctx, sig, A, what, hermitian=False):
     AT = A.conj().T if hermitian else A.T
     d = np.abs(A - AT)
     i = np.unravel_index(int(np.argmax(d)), A.shape)
-    ctx.check(bool(d[i] <= TOL * s), sig + ":symmetric", f"{what} is not {'Hermitian' if hermitian else 'symmetric'}: [{i[0]},{i[1]}] = {A[i]!r} but [{i[1]},{i[0]}] = {A[i[1], i[0]]!r}")
+    ctx.check(bool(d[i] <= CUR["tol"] * s), sig + ":symmetric", f"{what} is not {'Hermitian' if hermitian else 'symmetric'}: [{i[0]},{i[1]}] = {A[i]!r} but [{i[1]},{i[0]}] = {A[i[1], i[0]]!r}")
     if not hermitian:
         rs = np.abs(A.sum(axis=1))
         k = int(np.argmax(rs))
-        ctx.check(bool(rs[k] <= TOL * s), sig + ":rowsum", f"{what}: row {k} sums to {A.sum(axis=1)[k]!r} (largest entry {s:.6g})")
+        ctx.check(bool(rs[k] <= CUR["tol"] * s), sig + ":rowsum", f"{what}: row {k} sums to {A.sum(axis=1)[k]!r} (largest entry {s:.6g})")
 
 
 def graph_reference(nV, edges, weights=None):
@@ -255,13 +329,17 @@ def graph_reference(nV, edges, weights=None):
     return A
 
 
-def custom_weights(nE, seed):
+def custom_weights(nE, seed, narrow=None):
     """custom dict edge id -> weight; the INSERTION ORDER of the keys is a seeded shuffle (a dict filled while walking around
     vertices, sorted by length, ... is not in edge order) - only the mapping matters"""
     rnd = random.Random(seed)
     w = {e: rnd.choice([-1.0, 1.0]) * round(rnd.uniform(0.1, 5.0), 3) for e in range(nE)}
     order = list(range(nE))
     rnd.shuffle(order)
+    if narrow == "float32":        # values exactly representable in float32, handed over as numpy float32 scalars
+        return {e: np.float32(math.copysign(max(1, round(abs(w[e]) * 8)) / 8.0, w[e])) for e in order}
+    if narrow == "uint8":
+        return {e: np.uint8(1 + int(abs(w[e]) * 40) % 250) for e in order}
     return {e: w[e] for e in order}
 
 
@@ -273,7 +351,7 @@ def lib_edges(ctx, m, expected_keys, what):
     return medges, ok
 
 
-def graph_ops(ctx, M, m, nV, medges, Vn, wseed, prefix=""):
+def graph_ops(ctx, M, m, nV, medges, Vn, wseed, prefix="", narrow=None):
     """graph laplacian, adjacency (3 weightings), vertex-edge operator (2 options) against the stored edge list"""
     nE = len(medges)
     A1 = graph_reference(nV, medges)
@@ -287,8 +365,21 @@ def graph_ops(ctx, M, m, nV, medges, Vn, wseed, prefix=""):
             check_sym_rowsum(ctx, prefix + "graph_laplacian", D, "graph_laplacian")
     # --- adjacency
     lengths = [float(np.linalg.norm(Vn[a] - Vn[b])) for a, b in medges]
-    cw = custom_weights(nE, wseed)
-    for wname, warg, wvals in (("one", "one", [1.0] * nE), ("length", "length", lengths), ("custom", cw, [cw[e] for e in range(nE)])):
+    cw = custom_weights(nE, wseed, narrow)
+    if narrow:
+        ctx.label("weights=" + narrow)
+    # a call that raises (documented: anything but 'one' / 'length' / a dict), and one that fails half-way (a dict without an
+    # entry for the last edge), must leave nothing behind: the ordinary calls below are checked as usual
+    try:
+        M.operators.adjacency_matrix(m, "lenght")
+    except Exception:
+        pass
+    if nE >= 2:
+        try:
+            M.operators.adjacency_matrix(m, {e: 1.0 for e in range(nE - 1)})
+        except Exception:
+            pass
+    for wname, warg, wvals in (("one", "one", [1.0] * nE), ("length", "length", lengths), ("custom", cw, [float(cw[e]) for e in range(nE)])):
         sig = prefix + "adjacency[" + wname + "]"
         ok, A = ctx.call(sig, M.operators.adjacency_matrix, m, warg) if wname != "one" else ctx.call(sig, M.operators.adjacency_matrix, m)
         if not ok:
@@ -298,13 +389,13 @@ def graph_ops(ctx, M, m, nV, medges, Vn, wseed, prefix=""):
             exp[(a, b)] = wvals[e]
             exp[(b, a)] = wvals[e]
         check_entries(ctx, sig, A, (nV, nV), exp, f"adjacency_matrix(weights={wname})")
-    ctx.check(cw == custom_weights(nE, wseed) and list(cw) == list(custom_weights(nE, wseed)), prefix + "arguments:weights-modified", "adjacency_matrix changed the custom weights dict it was given")
+    ctx.check(cw == custom_weights(nE, wseed, narrow) and list(cw) == list(custom_weights(nE, wseed, narrow)), prefix + "arguments:weights-modified", "adjacency_matrix changed the custom weights dict it was given")
     ok, A = ctx.call(prefix + "adjacency[custom,2nd]", M.operators.adjacency_matrix, m, cw)
     if ok:
         exp = {}
         for e, (a, b) in enumerate(medges):
-            exp[(a, b)] = cw[e]
-            exp[(b, a)] = cw[e]
+            exp[(a, b)] = float(cw[e])
+            exp[(b, a)] = float(cw[e])
         check_entries(ctx, prefix + "adjacency[custom,2nd]", A, (nV, nV), exp, "adjacency_matrix(weights=custom), second call with the same dict")
     # --- vertex to edge operator
     for oriented in (False, True):
@@ -374,7 +465,7 @@ def check_mass(ctx, M, sig, fun, m, n, base_ref, k, total, has_sqrt, has_format,
         if not inv and not sq:
             d0 = d
             ctx.check(relclose_entrywise(d, base_ref), sig + ":entries", f"{what}: " + worst(d / base_ref, np.ones_like(d)) + " (ratio library/reference)")
-            ctx.check(abs(d.sum() - k * total) <= TOL * k * total, sig + ":sum",
+            ctx.check(abs(d.sum() - k * total) <= CUR["tol"] * k * total, sig + ":sum",
                       f"{what}: entries sum to {d.sum()!r}, expected {k} x total measure {total!r} = {k * total!r}")
         elif d0 is not None:
             exp = d0
@@ -468,6 +559,13 @@ def tri_case(draw):
         if 4 * len(F) <= 600:
             V, F = midpoint_subdivide(V, F)
             tags.append("subdivided")
+    if kind != "lattice" and draw(st.sampled_from([True, False, False])):
+        # anisotropic stretch (before any rigid motion): the identities are exact for every non-degenerate mesh
+        fx, fy, fz = (draw(st.sampled_from([0.5, 1.0, 1.0, 2.0, 3.0])) for _ in range(3))
+        Va = [[v[0] * fx, v[1] * fy, v[2] * fz] for v in V]
+        if (fx, fy, fz) != (1.0, 1.0, 1.0) and angles_ok(Va, F):
+            V = Va
+            tags.append("anisotropic")
     if draw(st.booleans()):
         F = [f[::-1] for f in F]
         tags.append("orientation-reversed")
@@ -489,12 +587,24 @@ def tri_case(draw):
         V = V + ([[-1.0 * scale, -1.0 * scale, 0.0 if planar else 3.0 * scale]] if kind == "lattice" else
                  [[0.5 * scale, 0.25 * scale, 0.0 if planar else 0.125 * scale]])
         tags.append("isolated-last-vertex")
+    far = draw(st.sampled_from([0, 0, 0, 0, 1e3, 1e4, 1e5, 1e6])) if kind != "lattice" else 0
+    if far:
+        # geo-referenced data: the whole surface translated by `far` x (mean edge length)
+        A_ = np.array(V, dtype=float)
+        h = float(np.mean([np.linalg.norm(A_[f[i]] - A_[f[(i + 1) % 3]]) for f in F for i in range(3)]))
+        d = np.array(draw(st.sampled_from([[1.0, -0.66, 0.41], [-0.31, 1.0, 0.83], [0.55, 0.47, -1.0], [1.0, 1.0, 1.0]])))
+        if planar:
+            d[2] = 0.0
+        V = (A_ + far * h * d).tolist()
+        tags.append("far-from-origin")
     int_mode = draw(st.sampled_from(["numpy", "python"])) if all_integral(V) else None
     a = [draw(st.integers(-30, 30)) / 10 for _ in range(3)]
     return {"V": [[float(x) for x in v] for v in V], "F": F, "tags": tags, "planar": planar, "isolated": isolated, "int_mode": int_mode,
             "a": a, "b": draw(st.integers(-20, 20)) / 10,
-            "pre": draw(st.sampled_from(["none", "none", "angles"])),
-            "conn": draw(st.sampled_from(["faces", "flat"])) if planar else "faces",
+            "pre": draw(st.sampled_from(["none", "none", "angles", "area-sparse"])),
+            "conn": draw(st.sampled_from(["faces", "flat", "custom"])) if planar else draw(st.sampled_from(["faces", "faces", "custom"])),
+            "face_form": draw(st.sampled_from(FACE_FORMS)), "edges_off": draw(st.sampled_from([False] * 5 + [True])),
+            "dup_warning": draw(st.booleans()), "narrow": draw(st.sampled_from([None, None, "float32", "uint8"])),
             "vconn": draw(st.sampled_from([True, False, False])), "order": draw(st.sampled_from([1, 2, 4])),
             "wseed": draw(st.integers(0, 10 ** 6)), "fmt": draw(st.sampled_from(FORMATS)),
             "sort": draw(st.sampled_from([True, True, False])), "second_pass": draw(st.sampled_from([True, False, False])), "group_seed": draw(st.integers(0, 10 ** 6))}
@@ -515,7 +625,7 @@ def fn_surface(case, ctx):
         raise AssertionError("flat connection requested on a mesh that is not embedded in the plane z=0")
     for t in case.get("tags", []):
         if t.startswith(("base=", "scale=")) or t in ("closed", "bordered", "subdivided", "orientation-reversed", "moved",
-                                                      "isolated-last-vertex", "height", "ear-removed", "relabelled"):
+                                                      "isolated-last-vertex", "height", "ear-removed", "relabelled", "anisotropic", "far-from-origin"):
             ctx.label(t)
     ctx.label("pre=" + case["pre"], "conn=" + case["conn"], "planar" if case["planar"] else "non-planar")
     ctx.label("faces<=20" if nF <= 20 else "faces<=80" if nF <= 80 else "faces<=600")
@@ -534,18 +644,33 @@ def fn_surface(case, ctx):
     N = R.tri_normals(Vn, F)
     K = R.stiffness(Vn, F)
 
-    M.config.sort_neighborhoods = bool(case.get("sort", True))      # restored by the runner after the case
+    if set_case_tolerance(Vn, sorted(ref.uedges)) > TOL:
+        ctx.label("tolerance-relaxed(far)")
+    # library-wide switches (all restored by the runner after the case)
+    M.config.sort_neighborhoods = bool(case.get("sort", True))
     ctx.label("sort=" + str(bool(case.get("sort", True))))
+    edges_off = bool(case.get("edges_off"))
+    M.config.complete_edges_from_faces = not edges_off
+    M.config.display_duplicate_attribute_warning = bool(case.get("dup_warning", False))
+    ctx.label("config:edges-not-completed" if edges_off else "config:edges-completed", "config:dup-warning=" + str(bool(case.get("dup_warning", False))))
     int_mode = case.get("int_mode")
     if int_mode and not all_integral(V):
         raise AssertionError("integer coordinates requested for non-integral vertices")
     ctx.label("coords=int-" + int_mode if int_mode else "coords=float")
-    m = build_surface(V, F, int_mode)
+    face_form = case.get("face_form", "list")
+    ctx.label("faces-as=" + face_form)
+    m = build_surface(V, F, int_mode, face_form)
     if case["pre"] == "angles":
         ok, _ = ctx.call("corner_angles", M.attributes.corner_angles, m)
         if not ok:
             return
-    medges, ok = lib_edges(ctx, m, ref.uedges, "surface")
+    elif case["pre"] == "area-sparse":
+        ok, _ = ctx.call("face_area[sparse]", M.attributes.face_area, m, persistent=True, dense=False)
+        if not ok:
+            return
+    # with config.complete_edges_from_faces = False a faces-only surface has no edge at all: the face-based operators (laplacian,
+    # gradient, vertex / face masses, vertex-face operator) must be unaffected, the edge-based ones see an empty edge set
+    medges, ok = lib_edges(ctx, m, set() if edges_off else ref.uedges, "surface")
     if not ok:
         return
     nE = len(medges)
@@ -579,6 +704,8 @@ def fn_surface(case, ctx):
         sigc = "connection[" + which + "]"
         if which == "flat":
             ok, conn = ctx.call(sigc, M.processing.FlatConnectionFaces, m)
+        elif which == "custom":
+            ok, conn = True, CustomFaceConnection(Vn, F, N, case["wseed"])
         else:
             ok, conn = ctx.call(sigc, M.processing.SurfaceConnectionFaces, m)
         if not ok:
@@ -602,7 +729,7 @@ def fn_surface(case, ctx):
         if not ctx.check(bool(cz[k] > 1 - 1e-9), sigc + ":orientation", f"cross(X,Y) of face {k} is not the face normal (dot = {cz[k]:.6g})"):
             return
         a = np.array(case["a"], dtype=float); b = float(case["b"])
-        fvals = Vn @ a + b
+        fvals = (Vn - Vn[sorted(used)].mean(axis=0)) @ a + b       # affine, centred on the mesh so that far-away meshes keep O(size) values
         exp_c = BX @ a + 1j * (BY @ a)                      # tangential projection of a in each face basis
         # cross-check of the oracle itself: P1 gradient of the interpolant, expressed in the same basis
         gref = R.p1_gradient(Vn, F, fvals)
@@ -625,9 +752,9 @@ def fn_surface(case, ctx):
                 pat[i, f] = True
             ctx.check(not np.any((np.abs(Dz) > 0) & ~pat), sig + ":pattern", "gradient has entries outside (face, its vertices)")
             gs = amax(Dz)
-            ctx.check(amax(Dz.sum(axis=1)) <= TOL * gs, sig + ":constant", f"gradient of a constant function is not zero (row sums up to {amax(Dz.sum(axis=1)):.3g})")
+            ctx.check(amax(Dz.sum(axis=1)) <= CUR["tol"] * gs, sig + ":constant", f"gradient of a constant function is not zero (row sums up to {amax(Dz.sum(axis=1)):.3g})")
             got = Dz @ fvals
-            tol = TOL * (amax(a) + gs * amax(fvals))
+            tol = CUR["tol"] * (amax(a) + gs * amax(fvals))
             k = int(np.argmax(np.abs(got - exp_c)))
             ctx.check(bool(abs(got[k] - exp_c[k]) <= tol), sig + ":affine",
                       f"gradient of f(p) = {case['a']}.p + {b} in face {k} {F[k]} is {got[k]!r}, tangential projection in the face basis is {exp_c[k]!r}")
@@ -652,17 +779,19 @@ def fn_surface(case, ctx):
             for v in f:
                 pv[v] += areas[i]
         pe = np.zeros(nE)
-        for i, f in enumerate(F):
-            for j in range(3):
-                pe[eid[key(f[j], f[(j + 1) % 3])]] += areas[i] / 3
+        if not edges_off:
+            for i, f in enumerate(F):
+                for j in range(3):
+                    pe[eid[key(f[j], f[(j + 1) % 3])]] += areas[i] / 3
         check_mass(ctx, M, "mass_vertices", M.operators.area_weight_matrix, m, nV, pv, 3, total, True, True, case["fmt"], "area_weight_matrix")
         check_mass(ctx, M, "mass_faces", M.operators.area_weight_matrix_faces, m, nF, areas, 1, total, False, True, case["fmt"], "area_weight_matrix_faces")
-        check_mass(ctx, M, "mass_edges", M.operators.area_weight_matrix_edges, m, nE, pe, 1, total, False, False, case["fmt"], "area_weight_matrix_edges")
+        if not edges_off:
+            check_mass(ctx, M, "mass_edges", M.operators.area_weight_matrix_edges, m, nE, pe, 1, total, False, False, case["fmt"], "area_weight_matrix_edges")
 
     def g_graph():
-        graph_ops(ctx, M, m, nV, medges, Vn, case["wseed"])
+        graph_ops(ctx, M, m, nV, medges, Vn, case["wseed"], narrow=case.get("narrow"))
         vertex_face_op(ctx, M, m, nV, F)
-        if closed and not isolated:
+        if closed and not isolated and not edges_off:
             ok1, L1 = ctx.call("laplacian[uniform]", M.operators.laplacian, m, cotan=False)
             ok2, L2 = ctx.call("graph_laplacian", M.operators.graph_laplacian, m)
             if ok1 and ok2 and sp.issparse(L1) and sp.issparse(L2) and L1.shape == L2.shape:
@@ -719,7 +848,9 @@ def fn_surface(case, ctx):
                     continue
                 check_sym_rowsum(ctx, sig, D, f"laplacian_edges(cotan={cot})")
 
-    groups = [("laplacian", g_laplacian), ("gradient", g_gradient), ("mass", g_mass), ("graph", g_graph), ("dual", g_dual)]
+    groups = [("laplacian", g_laplacian), ("gradient", g_gradient), ("mass", g_mass), ("graph", g_graph)]
+    if not edges_off:
+        groups.append(("dual", g_dual))
     random.Random(case["group_seed"]).shuffle(groups)
     ctx.label("first-group=" + groups[0][0])
     for gname, g in groups:
@@ -728,7 +859,7 @@ def fn_surface(case, ctx):
 
     # ---------------------------------------------------------------- connection Laplacian on vertices (own fresh mesh)
     def g_vconn():
-        m2 = build_surface(V, F, int_mode)
+        m2 = build_surface(V, F, int_mode, face_form)
         try:
             vc = M.processing.SurfaceConnectionVertices(m2)
         except Exception as e:       # building the vertex connection is not part of this property
@@ -757,7 +888,7 @@ def fn_surface(case, ctx):
                 check_sym_rowsum(ctx, sig, D, "uniform connection Laplacian", hermitian=True)
                 ctx.check(relclose(np.abs(D), U, 1e-8), sig + ":modulus", "|uniform connection Laplacian| != (#incident faces)/2 entrywise " + worst(np.abs(D), U))
 
-    if case.get("vconn") and not isolated:
+    if case.get("vconn") and not isolated and not edges_off:
         g_vconn()
 
     # ---------------------------------------------------------------- second pass on the SAME mesh object: by now every matrix the
@@ -784,8 +915,17 @@ def tet_case(draw):
     if scale != 1.0:
         V = [[x * scale for x in v] for v in V]
     tags.append(scale_label(scale))
+    far = draw(st.sampled_from([0, 0, 0, 0, 1e3, 1e4, 1e5, 1e6]))
+    if far:
+        A_ = np.array(V, dtype=float)
+        h = float(np.mean([np.linalg.norm(A_[c[i]] - A_[c[j]]) for c in t["C"] for i in range(4) for j in range(i)]))
+        d = np.array(draw(st.sampled_from([[1.0, -0.66, 0.41], [-0.31, 1.0, 0.83], [0.55, 0.47, -1.0], [1.0, 1.0, 1.0]])))
+        V = (A_ + far * h * d).tolist()
+        tags.append("far-from-origin")
     int_mode = draw(st.sampled_from(["numpy", "python"])) if all_integral(V) else None
     return {"V": V, "C": t["C"], "tags": tags, "int_mode": int_mode, "wseed": draw(st.integers(0, 10 ** 6)), "fmt": draw(st.sampled_from(FORMATS)),
+            "cell_form": draw(st.sampled_from(FACE_FORMS)), "dup_warning": draw(st.booleans()), "narrow": draw(st.sampled_from([None, None, "float32", "uint8"])),
+            "pre_sparse": draw(st.booleans()),
             "pre": draw(st.booleans()), "second_pass": draw(st.sampled_from([True, False, False])), "group_seed": draw(st.integers(0, 10 ** 6))}
 
 
@@ -811,12 +951,19 @@ def fn_volume(case, ctx):
     if int_mode and not all_integral(V):
         raise AssertionError("integer coordinates requested for non-integral vertices")
     ctx.label("coords=int-" + int_mode if int_mode else "coords=float")
-    m = build_volume(V, C, int_mode)
+    if set_case_tolerance(Vn, sorted(ref.ekeys)) > TOL:
+        ctx.label("tolerance-relaxed(far)")
+    M.config.display_duplicate_attribute_warning = bool(case.get("dup_warning", False))      # restored by the runner
+    ctx.label("config:dup-warning=" + str(bool(case.get("dup_warning", False))))
+    cell_form = case.get("cell_form", "list")
+    ctx.label("cells-as=" + cell_form)
+    m = build_volume(V, C, int_mode, cell_form)
     if case["pre"]:
-        ok, _ = ctx.call("cell_volume", M.attributes.cell_volume, m)
+        sparse = bool(case.get("pre_sparse"))
+        ok, _ = ctx.call("cell_volume", M.attributes.cell_volume, m, dense=not sparse)
         if not ok:
             return
-        ctx.label("volume-cached")
+        ctx.label("volume-cached-sparse" if sparse else "volume-cached")
     medges, ok = lib_edges(ctx, m, ref.ekeys, "volume mesh")
     if not ok:
         return
@@ -872,7 +1019,7 @@ def fn_volume(case, ctx):
         check_mass(ctx, M, "mass_volume_cells", M.operators.volume_weight_matrix_cells, m, nC, vols, 1, total, True, True, case["fmt"], "volume_weight_matrix_cells")
 
     def g_graph():
-        graph_ops(ctx, M, m, nV, medges, Vn, case["wseed"], prefix="vol:")
+        graph_ops(ctx, M, m, nV, medges, Vn, case["wseed"], prefix="vol:", narrow=case.get("narrow"))
 
     groups = [("vlap", g_vlap), ("tlap", g_tlap), ("mass", g_mass), ("graph", g_graph)]
     random.Random(case["group_seed"]).shuffle(groups)
@@ -938,11 +1085,12 @@ def fn_graph(case, ctx):
     if not E:
         ctx.label("no-edge")
     ctx.nontrivial(len(E) >= 2)
+    CUR["tol"] = TOL
     m = polyline_from(V, E)
     medges, ok = lib_edges(ctx, m, set(key(e) for e in E), "polyline")
     if not ok:
         return
-    graph_ops(ctx, M, m, nV, medges, Vn, case["wseed"], prefix="polyline:")
+    graph_ops(ctx, M, m, nV, medges, Vn, case["wseed"], prefix="polyline:", narrow=[None, "float32", "uint8"][case["wseed"] % 3])
 
 
 @st.composite
@@ -963,6 +1111,7 @@ def fn_polygon(case, ctx):
         if not t.startswith("op="):
             ctx.label(t)
     ctx.nontrivial(len(ref.uedges) >= 2 and len(set(len(f) for f in F)) >= 1 and len(F) >= 2)
+    CUR["tol"] = TOL
     m = surface_from(V, F)
     medges, ok = lib_edges(ctx, m, ref.uedges, "polygon surface")
     if not ok:
